@@ -64,16 +64,11 @@ func (d *DynamicAttr) Cost() int {
 	return 0
 }
 
+// ResolveAttr resolves the attribute for the given context. The result is not
+// remembered: the object holding the attribute (a module) may be shared by
+// evaluations whose contexts differ, e.g. in the OS they carry.
 func (d *DynamicAttr) ResolveAttr(ctx context.Context, name string) (Object, error) {
-	if d.value != nil {
-		return d.value, nil
-	}
-	attr, err := d.fn(ctx, name)
-	if err != nil {
-		return nil, err
-	}
-	d.value = attr
-	return attr, nil
+	return d.fn(ctx, name)
 }
 
 func NewDynamicAttr(name string, fn ResolveAttrFunc) *DynamicAttr {
